@@ -340,6 +340,20 @@ fn fam_eq<const N: usize>(ctx: &Ctx, sq: SqFn<N>) {
             if is_min {
                 cs.l.class("MIN");
             }
+            // MIN / MAX / sign / zero tests against the two's-complement value
+            {
+                let b = |v: bool| Out::Val(vec![v as u64]);
+                let is_max = sa == (BigInt::one() << (bits_ - 1)) - 1;
+                cs.group();
+                chk!(cs, "Int::is_min", &b(is_min), b(bool::from(ia.is_min())));
+                cs.group();
+                chk!(cs, "Int::is_max", &b(is_max), b(bool::from(ia.is_max())));
+                cs.group();
+                chk!(cs, "Int::is_negative", &b(sa.is_negative()), b(bool::from(ia.is_negative())));
+                cs.group();
+                chk!(cs, "Int::is_positive", &b(sa.is_positive()), b(bool::from(ia.is_positive())));
+                cs.group();
+            }
             let ng = tc(&-&sa, N);
             chk!(cs, "Int::overflowing_neg", &Out::v2(&ng, is_min as u64), {
                 let (r, o) = ia.overflowing_neg();
